@@ -1,0 +1,42 @@
+//go:build verif
+
+package io
+
+import (
+	"context"
+	"fmt"
+)
+
+// VerifDirsState renders the private bookkeeping of a directory (never changing it):
+//
+//	basic est=<estimatedSize> total=<totalLinks> maxlinks= fanout= mode=<per-dir mode or -> thr=<per-dir threshold> stat=<mode>/<sec>/<nsec>
+//	hamt  chg=<sizeChange>    total=<totalLinks> maxlinks= fanout= mode=                   thr=                     stat=                  tree=<shard dump>
+func VerifDirsState(ctx context.Context, d Directory) string {
+	if dd, ok := d.(*DynamicDirectory); ok {
+		d = dd.Directory
+	}
+	pm := func(m *SizeEstimationMode) string {
+		if m == nil {
+			return "-"
+		}
+		return fmt.Sprint(int(*m))
+	}
+	switch x := d.(type) {
+	case *BasicDirectory:
+		sec, nsec := int64(0), 0
+		if !x.mtime.IsZero() {
+			sec, nsec = x.mtime.Unix(), x.mtime.Nanosecond()
+		}
+		return fmt.Sprintf("basic est=%d total=%d maxlinks=%d fanout=%d mode=%s thr=%d stat=%o/%d/%d",
+			x.estimatedSize, x.totalLinks, x.maxLinks, x.maxHAMTFanout, pm(x.sizeEstimation), x.hamtShardingSize, uint32(x.mode), sec, nsec)
+	case *HAMTDirectory:
+		sec, nsec := int64(0), 0
+		if !x.mtime.IsZero() {
+			sec, nsec = x.mtime.Unix(), x.mtime.Nanosecond()
+		}
+		return fmt.Sprintf("hamt chg=%d total=%d maxlinks=%d fanout=%d mode=%s thr=%d stat=%o/%d/%d tree=%s",
+			x.sizeChange, x.totalLinks, x.maxLinks, x.maxHAMTFanout, pm(x.sizeEstimation), x.hamtShardingSize, uint32(x.mode), sec, nsec,
+			x.shard.VerifDirsDump(ctx))
+	}
+	return "unknown"
+}
